@@ -109,17 +109,19 @@ class ElementWithVars(ElementBase, Generic[VarType], ABC):
         """Steps the dynamics of this element."""
         assert self.states is not None, "States not initialized."
         next_states = self.step_dynamics(*args, **kwargs)
-        if self.next_states is None:
-            self.next_states = {}
+        # the next states are stored only once all of them are computed and checked, so
+        # that a failed or interrupted step does not leave the element looking stepped
+        new_next_states = {}
         for name, state in self.states.items():
             next_state = next_states[name]
-            self.next_states[name] = next_state
             if (
                 hasattr(next_state, "shape")
                 and hasattr(state, "shape")
                 and next_state.shape != state.shape
             ):
                 raise RuntimeError("Shapes of new and old states do not match.")
+            new_next_states[name] = next_state
+        self.next_states = new_next_states
 
     def __str__(self) -> str:
         return self.name
